@@ -10,7 +10,8 @@ Import ListNotations.
 From SioV Require Import Base.GoSem Eio.Packet Eio.Batcher.
 From SioV Require Eio.Limits.
 From SioV Require Import Base.Conc Sio.Pipeline.
-From SioV Require Import Sio.EndToEnd Sio.EndToEndInst Sio.EndToEndReal Sio.EndToEndSched.
+From SioV Require Import Sio.HandlerStore.
+From SioV Require Import Sio.EndToEnd Sio.EndToEndInst Sio.EndToEndReal Sio.EndToEndSched Sio.EndToEndRegistry.
 
 Section C01.
   (** C09/C10: Socket.IO codec. One packet = header frame + attachments; an idle decoder fed the
@@ -305,3 +306,11 @@ Section C01_all_schedules.
              C13_split_keeps_sequence encode_sp decode_sp C09_packet_roundtrip C09_encode_wf).
   Qed.
 End C01_all_schedules.
+
+(** * The registry hypothesis ([C18_get_all] above) holds for C18's model of store.go's event
+    registry (Sio/HandlerStore.v [estep]/[erun]): after one OnEvent per entry of the table, an
+    occurrence of [n] runs exactly the entries registered for [n], once each, in order. *)
+Theorem C01_registry_hypothesis_discharged :
+  forall (same : handler N -> handler N -> bool) (hs : list (handler N)) (n : N),
+    store_get_all same hs n = filter (fun h => N.eqb (hname N h) n) hs.
+Proof. exact store_get_all_spec. Qed.
